@@ -49,7 +49,8 @@ def equalizer_impl_traces():
     from .props import c08
     logging.disable(logging.CRITICAL)
     scenarios = [(['equal', 'hangs', 'exits', 'equal'], 2, 4, {}), (['late', 'equal', 'idleExit', 'different'], 2, 4, {1: True}),
-                 (['equal', 'different', 'equal', 'equal'], 3, 4, {}), (['unreadable', 'equal', 'late', 'equal'], 2, 3, {3: False})]
+                 (['equal', 'different', 'equal', 'equal'], 3, 4, {}), (['unreadable', 'equal', 'late', 'equal'], 2, 3, {3: False}),
+                 (['reportRaises', 'reportRaises', 'equal', 'reportRaises'], 2, 4, {})]
     good = []
     for i, (beh, rate, stop, late) in enumerate(scenarios):
         res = eqbind.run_dedicated(beh, rate, stop, late, False)
@@ -59,7 +60,7 @@ def equalizer_impl_traces():
         good.append({'id': i + 1, 'beh': beh, 'stop': stop, 'rate': rate, 'events': eqbind.impl_events(res['log'], res['out'])})
     bad = []
     for t in good:
-        for kind in ('new', 'take', 'kill', 'verdict'):
+        for kind in ('new', 'take', 'kill', 'verdict', 'ok'):
             c = copy.deepcopy(t)
             ev = c['events']
             if kind == 'new':
@@ -73,6 +74,11 @@ def equalizer_impl_traces():
                 if not k:
                     continue
                 del ev[k[0]]
+            elif kind == 'ok':
+                k = [j for j, e in enumerate(ev) if e['e'] == 'answer']
+                if not k:
+                    continue
+                ev[k[0]]['ok'] = not ev[k[0]]['ok']
             else:
                 v = ev[-1]['verdicts']
                 v[0] = 'Different' if v[0] != 'Different' else 'Equal'
@@ -86,7 +92,7 @@ def equalizer_impl_traces():
                 grp = [t for t in traces if t['rate'] == rate]
                 name = 'MC_SELF_%s_%d' % (label, rate)
                 mc.write_mc(s, 'EqualizerImplTrace', name,
-                            c08.consts(4, c08.ALL_BEHS + ['unreadable', 'idleExit'], rate, [1, 2, 3, 4]),
+                            c08.consts(4, c08.ALL_BEHS + c08.EXTRA_BEHS, rate, [1, 2, 3, 4]),
                             invariants=['TraceInv'], spec='TraceSpec', constraints=['Report'])
                 _r, acc, rej = tracecheck.validate(s, name, name + '.cfg', grp)
                 acc_n += len(acc)
